@@ -400,7 +400,9 @@ def run_shard(desc, seed, tier):
         quick = desc["quick"]
         k = 0
         for (pre, u, suf) in LEXICAL:
-            for n in ((4500, 20000) if quick else (4500, 20000, 200000)):
+            # (families with a counter nest DISTINCT elements: html5lib's list of active formatting elements makes them quadratic, so
+            # their largest size is 60000 characters, about 4000 elements, instead of 200000)
+            for n in ((4500, 20000) if quick else (4500, 20000, 60000 if "%d" in u else 200000)):
                 for (builder, ns, ft) in (("etree", True, True), ("dom", True, False)):
                     k += 1
                     container = None if k % 3 else "div"
